@@ -146,6 +146,7 @@ func (st *provState) walk(v ssa.Value, depth int) {
 		st.walk(x.X, depth)
 		st.walk(x.Index, depth)
 	case *ssa.Lookup:
+		st.leaf("lookup", pathOf(x.X).Names(), v, nil)
 		st.walk(x.X, depth)
 		st.walk(x.Index, depth)
 	case *ssa.Slice:
